@@ -9,6 +9,7 @@ mod loopcases;
 mod songcases;
 mod predefcases;
 mod filtercases;
+mod typedcases;
 
 use std::io::{BufRead, Write};
 
@@ -46,6 +47,7 @@ fn dispatch(toks: &[&str]) -> String {
         "songs" | "songs_nc" => songcases::run(toks),
         "predef" => predefcases::run(toks),
         "filter" => filtercases::run(toks),
+        "typed" | "typedlist" => typedcases::run(toks),
         other => format!("unknown-kind {}", other),
     }
 }
